@@ -201,6 +201,61 @@ def line_events(fn) -> int:
     return count[0]
 
 
+def run_regex_growth(ch):
+    """The parser's regular expressions run in C, where neither line events nor a signal reach: their cost is measured as
+    wall-clock time (minimum of 3 runs) on short adversarial inputs that grow by two units per step — an unclosed nested-tag
+    opener followed by white space / words, the shape on which an ambiguous alternation backtracks exponentially.  Any
+    input of at most ~60 characters on which one match takes more than 0.2 s is reported (the unchanged patterns take
+    microseconds)."""
+    import importlib
+    import re as _re
+    import time as _time
+
+    targets = []
+    for modname in ("django_components.expression", "django_components.util.tag_parser", "django_components.util.template_parser",
+                    "django_components.util.template_tag", "django_components.attributes", "django_components.slots"):
+        try:
+            mod = importlib.import_module(modname)
+        except Exception:  # noqa
+            continue
+        for name, val in sorted(vars(mod).items()):
+            if isinstance(val, _re.Pattern):
+                targets.append((modname.split(".")[-1] + "." + name, val.search))
+    from django_components.expression import is_dynamic_expression
+    targets.append(("expression.is_dynamic_expression", is_dynamic_expression))
+    prefixes = ['"{{', '"{%', '"{#', "'{{", "'{% ", "{{", "{% ", "{#", '"', ""]
+    units = [" a", " ", "a ", "\n", "a\n", " a\t", "{{ "]
+    tails = ["", '"', "'"]
+    worst = {}
+    for tname, fn in targets:
+        for pre in prefixes:
+            for unit in units:
+                for tail in tails:
+                    for k in range(8, 26, 2):
+                        src = pre + unit * k + tail
+                        best = None
+                        for _ in range(3):
+                            t0 = _time.perf_counter()
+                            try:
+                                fn(src)
+                            except Exception:  # noqa
+                                pass
+                            dt = _time.perf_counter() - t0
+                            best = dt if best is None or dt < best else best
+                            if dt < 0.05:
+                                break
+                        ch.count("regex-growth", 1, 1)
+                        worst[tname] = max(worst.get(tname, 0.0), best)
+                        if best > 0.2:
+                            ch.violation("impl-violates-spec", "regex-growth", {"function": tname, "input": src, "length": len(src)},
+                                         impl={"seconds_min_of_3": round(best, 3)},
+                                         spec="time bounded by a quadratic in the input length: one match on an input of %d characters took %.2f s and grows with every unit added" % (len(src), best))
+                            ch.cov["regex_growth_worst_seconds"] = {k_: round(v, 6) for k_, v in worst.items()}
+                            return
+    ch.cov["regex_growth_worst_seconds"] = {k_: round(v, 6) for k_, v in worst.items()}
+    ch.assumptions.append("regex-growth: wall-clock (minimum of 3 runs, threshold 0.2 s on inputs of at most ~80 characters); the unchanged patterns need microseconds")
+
+
 def run(tier: str) -> int:
     ch = core.Check(PROP, tier, THEOREMS)
     ch.assumptions += [
@@ -362,6 +417,7 @@ def run(tier: str) -> int:
             ch.violation("impl-violates-spec", "cost", {"shape": name, "sizes": cost[name]["n"]}, impl=cost[name],
                          spec="parseTag_steps_linear / quadratic time: line events grow faster than n^2 when the input is scaled x4")
     ch.cov["cost_line_events"] = cost
+    run_regex_growth(ch)
     ch.cov["exhaustive"] = not stop
     ch.cov["rule"] = (
         f"parse_tag: all strings of length <= {L} over {len(alpha)} syntax symbols ({n_ex} strings) + {n_rand} random (uniform to length 60 / "
